@@ -126,8 +126,11 @@ def a_error(e):
 
 def a_entry(pname, value, ts, err):
     """cache entry / callback arguments -> [val, ts, cls, text]"""
-    tick = ts - T0 if isinstance(ts, (int, float)) else None
-    tick = int(tick) if tick is not None and tick == int(tick) else '?%r' % (ts,)
+    tick = ts - T0 if isinstance(ts, (int, float)) and not isinstance(ts, bool) else None
+    if tick is not None and tick == int(tick) and 0 <= tick < 9000:
+        tick = int(tick)
+    else:   # not representable as a tick: a value no specification entry carries (TLC compares integers only)
+        tick = 9998
     if err is not None:
         cls, txt = a_error(err)
         return ['null' if value is None else '?' + repr(value), tick, cls, txt]
@@ -309,13 +312,13 @@ class MsgWorld:
             for key, lst in self.client.callbacks[kind].items():
                 for fn in lst:
                     cb = getattr(fn, 'cb', None)
-                    if cb is None:
-                        res.append(['?', repr(key), kind])
-                        continue
-                    res.append([list(cb['level']), cb['kind'], cb['beh']])
                     lv = ['', ''] if key is None else ([key, ''] if isinstance(key, str) else list(key))
-                    if lv != list(cb['level']) or kind != cb['kind']:
-                        res.append(['?misfiled', repr(key), kind])
+                    if cb is None:
+                        res.append([lv, kind, '?foreign'])
+                    elif lv != list(cb['level']) or kind != cb['kind']:
+                        res.append([lv, kind, '?misfiled ' + cb['beh']])
+                    else:
+                        res.append([list(cb['level']), cb['kind'], cb['beh']])
         return sorted(res, key=json.dumps)
 
     def a_waiting(self):
@@ -377,8 +380,8 @@ class MsgWorld:
         finally:
             self.fc.time = saved
             self.client._running = False
-        if not self.finished:
-            raise MachineryError('receive loop ended before the script: %r' % (self.client.log.records[-3:],))
+        # not finished: the receive loop gave up before the end of the script - an observable outcome
+        self.stopped = not self.finished
         return self.obs
 
 
@@ -526,7 +529,7 @@ def _random_trace(seed_n):
     for st, o in zip(w2.done, obs):
         ev = {k: v for k, v in st.items() if k != 'maybe'}
         ev['cache'] = [{'m': c[0], 'p': c[1], 'e': _rec(c[2:])} for c in o['cache']]
-        ev['cbs'] = [{'level': c[0], 'kind': c[1], 'beh': c[2]} for c in o['cbs']] if all(c[0] != '?' and not str(c[0]).startswith('?') for c in o['cbs']) else o['cbs']
+        ev['cbs'] = [{'level': c[0], 'kind': c[1], 'beh': c[2]} for c in o['cbs']]
         ev['waiting'] = o['waiting']
         if st['ev'] == 'recv':
             ev['calls'] = [{'cb': c['cb'], 'm': c['m'], 'p': c['p'], 'e': _rec(c['e'])} for c in o['calls']]
@@ -535,6 +538,8 @@ def _random_trace(seed_n):
         elif st['ev'] == 'register':
             ev['icalls'] = [{'m': c['m'], 'p': c['p'], 'e': _rec(c['e'])} for c in o['calls']]
         trace.append(ev)
+    if w.stopped:
+        trace.append({'ev': 'receive loop stopped', 'after': len(obs)})
     return trace
 
 
@@ -917,7 +922,7 @@ def _behaviours(chk, quick):
     chk.add_tlc(r)
     behs = _printed(r.out)
     # deeper behaviours sampled by TLC's simulator from the same generation spec
-    n, depth, scfg = (30, 10, 'Gen_ClientCache_sim_quick.cfg') if quick else (1500, 14, 'Gen_ClientCache_sim_thorough.cfg')
+    n, depth, scfg = (30, 10, 'Gen_ClientCache_sim_quick.cfg') if quick else (600, 14, 'Gen_ClientCache_sim_thorough.cfg')
     rs = run_tlc('Gen_ClientCache', scfg, workers=1, timeout=900, simulate='num=%d' % n,
                  depth=depth + 1, seed=chk.seed + 1, deadlock=False)
     if rs.violated or rs.rc != 0:
